@@ -72,8 +72,8 @@ func desync(msg string) {
 }
 
 func pop(kind, name string) apiEvent {
-	for pos < len(cur.API) && strings.HasPrefix(cur.API[pos].Kind, "env-") {
-		pos++ // engine-side environment value: not replayable natively
+	for pos < len(cur.API) && (strings.HasPrefix(cur.API[pos].Kind, "env-") || (cur.API[pos].Kind == "clock0" && kind != "clock0")) {
+		pos++ // engine-side environment value (or a clock origin drawn by target code reading the real clock): skipped natively
 	}
 	if pos >= len(cur.API) {
 		if len(res.Failures) > 0 || cur.Repeat > 0 {
